@@ -957,10 +957,18 @@ func (vc *VC) applyHints(fr *frame, st *State, label string) {
 	if fr == nil || fr.contract == nil || st == nil {
 		return
 	}
+	if fr.contract == vc.Contract && len(fr.contract.At[label]) > 0 {
+		if vc.hintsSeen == nil {
+			vc.hintsSeen = map[string]bool{}
+		}
+		vc.hintsSeen[label] = true
+	}
 	for _, h := range fr.contract.At[label] {
 		switch h.Kind {
 		case "use":
 			vc.useLemma(fr, st, h.Cl)
+		case "apply":
+			vc.applyLemma(fr, st, h.Cl)
 		case "assert":
 			g := vc.evalClause(fr, st, vc.oldState(), h.Cl, nil)
 			vc.oblige(st, "assert", label, fr.specPos, g, h.Cl.Text)
@@ -991,6 +999,21 @@ func (vc *VC) useLemma(fr *frame, st *State, cl Clause) {
 	vc.instLemma(env, st, lm, call.Args, "lemma-pre")
 }
 
+func (vc *VC) applyLemma(fr *frame, st *State, cl Clause) {
+	call, ok := cl.Expr.(SCall)
+	if !ok {
+		vc.errorf(fr.specPos, "apply: expected lemma call, got %s", cl.Text)
+		return
+	}
+	lm, ok := vc.P.Specs.Lemmas[call.Fun]
+	if !ok {
+		vc.errorf(fr.specPos, "apply: unknown lemma %s", call.Fun)
+		return
+	}
+	env := vc.envFor(fr, st, vc.oldState(), nil)
+	vc.instLemma(env, st, lm, call.Args, "apply")
+}
+
 func (vc *VC) instLemma(env *specEnv, st *State, lm *Lemma, args []SExpr, kind string) {
 	if len(args) != len(lm.Params) {
 		env.fail("lemma %s: want %d args", lm.Name, len(lm.Params))
@@ -1009,6 +1032,19 @@ func (vc *VC) instLemma(env *specEnv, st *State, lm *Lemma, args []SExpr, kind s
 		lenv.names[p.Name] = binding{v, pt}
 	}
 	vc.UsedLemmas[lm.Name] = true
+	if kind == "apply" {
+		// conditional instance: the proved lemma says requires ==> ensures for all arguments, so the
+		// implication may be assumed without showing the hypotheses here
+		var hyp, con []Term
+		for _, rq := range lm.Requires {
+			hyp = append(hyp, lenv.evalBool(rq.Expr))
+		}
+		for _, en := range lm.Ensures {
+			con = append(con, lenv.evalBool(en.Expr))
+		}
+		vc.assume(st, Implies(And(hyp...), And(con...)))
+		return
+	}
 	for i, rq := range lm.Requires {
 		g := lenv.evalBool(rq.Expr)
 		vc.oblige(st, kind, fmt.Sprintf("%s.%d", lm.Name, i+1), env.pos, g, "lemma "+lm.Name+" requires "+rq.Text)
